@@ -54,6 +54,16 @@ def traces(recs):
         if "wb" not in rec or not any(e.get("ev") == "rows_done" or e.get("ev") == "row" for e in rec["events"]):
             continue
         wb = wb_of(rec)
+        if rec["status"] in ("other:ODKValidateError", "other:OSError"):
+            out.append({"test": rec.get("test"), "trace": None, "frag": False, "why": "validated conversion (no validator in this sandbox)"})
+            continue
+        if rec["status"] not in ("ok", "pyxform_error"):
+            out.append({"test": rec.get("test"), "trace": None, "frag": False, "why": "internal exception expected by the test (C17's subject, listed there)"})
+            continue
+        st = next((s for s in wb["sheets"] if s["name"] == "settings"), None)
+        if st and "flat" in [str(h).lower() for h in st["header"]]:
+            out.append({"test": rec.get("test"), "trace": None, "frag": False, "why": "flat instance setting (outside the modelled fragment)"})
+            continue
         res = {"status": rec["status"] if rec["status"] in ("ok", "pyxform_error") else "crash", "events": rec["events"], "xform": rec.get("xform"), "message": rec.get("message"), "warnings": rec.get("warnings")}
         try:
             cfg = rowtrace.wb_cfg(wb, form_name=rec.get("form_name"))
